@@ -92,7 +92,17 @@ FixComputed(T, w) ==
 (* pairs: empty when the clause holds; deviation names a KNOWN way the     *)
 (* code departs from the property ("none" if the failure matches none).    *)
 (***************************************************************************)
-P(p) == Prop = p \/ Prop = "ALL"
+(* C20 judges each goroutine's trace with the self-referential sequential   *)
+(* clauses (C01, C06, C07) and against the same history run alone.         *)
+P(p) == Prop = p \/ Prop = "ALL" \/ (Prop = "C20" /\ p \in {"C01", "C06", "C07"})
+
+(* C20: the event equals its twin of the solo run (same result, bytes, object, scalar) *)
+TwinClauses(e) ==
+  IF Prop = "C20" /\ "twin" \in DOMAIN e /\ e.twin > 0
+  THEN LET t == Trace[e.twin] IN
+       IF e.op = t.op /\ e.res = t.res /\ e.post = t.post /\ e.vpost = t.vpost /\ e.out = t.out THEN {}
+       ELSE {<<"C20.differs-from-solo-run", "none">>}
+  ELSE {}
 
 EncodeClauses(e) ==
   LET b == e.b
@@ -367,7 +377,7 @@ Next ==
   /\ LET e == Trace[l] IN
      IF e.h # hist
      THEN /\ hist' = e.h /\ ResetHistory /\ UNCHANGED <<l, bad, nchk>>
-     ELSE /\ LET cs == Clauses(e) IN
+     ELSE /\ LET cs == Clauses(e) \cup TwinClauses(e) IN
              /\ bad' = bad \o SetToSeq({[id |-> e.id, h |-> e.h, op |-> e.op, t |-> e.t, clause |-> c[1], dev |-> c[2]] : c \in cs})
              /\ nchk' = nchk + 1
           /\ Step(e)
